@@ -373,18 +373,28 @@ pub struct Message<'a> {
     pub value: &'a [u8],
 }
 
+// ~ compressed message sets nested deeper than this are refused;
+// each level is a level of recursion while decoding
+const MAX_NESTING_DEPTH: usize = 16;
+
 impl<'a> MessageSet<'a> {
     #[allow(dead_code)]
-    fn from_vec(data: Vec<u8>, req_offset: i64, validate_crc: bool) -> Result<MessageSet<'a>> {
+    fn from_vec(
+        data: Vec<u8>,
+        req_offset: i64,
+        validate_crc: bool,
+        depth: usize,
+    ) -> Result<MessageSet<'a>> {
         // since we're going to keep the original
         // uncompressed vector around without
         // further modifying it and providing
         // publicly no mutability possibilities
         // this is safe
-        let ms = MessageSet::from_slice(
+        let ms = MessageSet::from_slice_nested(
             unsafe { mem::transmute(&data[..]) },
             req_offset,
             validate_crc,
+            depth,
         )?;
         return Ok(MessageSet {
             raw_data: Cow::Owned(data),
@@ -394,6 +404,15 @@ impl<'a> MessageSet<'a> {
     }
 
     fn from_slice(raw_data: &[u8], req_offset: i64, validate_crc: bool) -> Result<MessageSet<'_>> {
+        MessageSet::from_slice_nested(raw_data, req_offset, validate_crc, 0)
+    }
+
+    fn from_slice_nested(
+        raw_data: &[u8],
+        req_offset: i64,
+        validate_crc: bool,
+        depth: usize,
+    ) -> Result<MessageSet<'_>> {
         let mut r = ZReader::new(raw_data);
         let mut msgs = Vec::new();
         let mut owned_data = Vec::new();
@@ -426,16 +445,24 @@ impl<'a> MessageSet<'a> {
                         // XXX handle recursive compression in future
                         #[cfg(feature = "gzip")]
                         c if c == Compression::GZIP as i8 => {
+                            if depth >= MAX_NESTING_DEPTH {
+                                return Err(Error::UnsupportedCompression);
+                            }
                             let v = gzip::uncompress(pmsg.value)?;
-                            let inner = MessageSet::from_vec(v, req_offset, validate_crc)?;
+                            let inner =
+                                MessageSet::from_vec(v, req_offset, validate_crc, depth + 1)?;
                             inner.append_to(&mut msgs, &mut owned_data);
                         }
                         #[cfg(feature = "snappy")]
                         c if c == Compression::SNAPPY as i8 => {
                             use std::io::Read;
+                            if depth >= MAX_NESTING_DEPTH {
+                                return Err(Error::UnsupportedCompression);
+                            }
                             let mut v = Vec::new();
                             SnappyReader::new(pmsg.value)?.read_to_end(&mut v)?;
-                            let inner = MessageSet::from_vec(v, req_offset, validate_crc)?;
+                            let inner =
+                                MessageSet::from_vec(v, req_offset, validate_crc, depth + 1)?;
                             inner.append_to(&mut msgs, &mut owned_data);
                         }
                         _ => return Err(Error::UnsupportedCompression),
